@@ -2,7 +2,8 @@
   Model/Template.lean — C16. Mirrors /repo/core/src/template.rs:
     * `Template` = the slice of `Part`s behind any of its three representations
       (`Literal([Part; 1])`, `Parts(&[Part])`, `Owned(Box<[Part]>)`, `TemplateKind::parts` :51-60)
-    * `PartialEq for Template` — the two-cursor, fragment-split-insensitive comparison        (:180-259)
+    * `PartialEq for Template` — the two-cursor, fragment-split-insensitive comparison        (:180-273)
+      (after `fix: compare template text fragments as bytes and skip empty fragments in Template equality`)
 
   Byte strings are `List UInt8` (UTF-8 of the Rust `&str`). A hole formatter is a Rust
   `fn(Value, &mut fmt::Formatter) -> fmt::Result`; the model names it by a number (the harness owns a
@@ -32,52 +33,77 @@ def restEmpty (ps : List Part) : Bool :=
     | .text t => t.isEmpty
     | .hole _ _ => false
 
-/-! ### The comparison as it is on the unchanged tree (defect D12) -/
+/-! ### `PartialEq for Template` (:180-273) -/
 
-/-- `str::is_char_boundary`. -/
-def isCharBoundary (s : List UInt8) (i : Nat) : Bool :=
-  if i = 0 then true
-  else if s.length ≤ i then decide (i = s.length)
-  else match s[i]? with
-    | some b => decide (b < 128) || decide (192 ≤ b)
-    | none => false
-
-/-- The `while ai < a.len() && bi < b.len()` loop (:195-243) with `&str` slicing. The cursor `(ai, ati)` is kept as
-    (the parts from `ai` on, the byte offset `ati` into the first of them). `&s[i..]` / `&s[..n]` panic unless the
-    offset is a char boundary of `s`. -/
-def eqLoopV0 (as : List Part) (ati : Nat) (bs : List Part) (bti : Nat) : Res :=
+/-- The `while ai < a.len() && bi < b.len()` loop (:195-257). The cursor `(ai, ati)` is kept as (the parts from `ai`
+    on, the byte offset `ati` into the first of them); likewise `(bi, bti)`. The arms are the Rust `match` arms in
+    order, the two guarded ones expanded per constructor. Slicing a byte slice `&a[ati..]` panics iff `ati > a.len()`;
+    `&at[..len]` cannot (`len` is a minimum of lengths). -/
+def eqLoop (as : List Part) (ati : Nat) (bs : List Part) (bti : Nat) : Res :=
   match as, bs with
-  | [], bs => .ok (restEmpty bs)
+  | [], bs => .ok (restEmpty bs)                                            -- loop exit, then (:260-268)
   | ap :: as, [] => .ok (restEmpty (ap :: as))
   | .text a :: as, .text b :: bs =>
-    if _h : ati ≤ a.length ∧ bti ≤ b.length then
-      if !(isCharBoundary a ati && isCharBoundary b bti) then .panic        -- `&a[ati..]`, `&b[bti..]` (:204-205)
+    if a.isEmpty then eqLoop as ati (.text b :: bs) bti                     -- (:202-206) skip empty fragment of a
+    else if b.isEmpty then eqLoop (.text a :: as) ati bs bti                -- (:207-211) skip empty fragment of b
+    else if _h : ati ≤ a.length ∧ bti ≤ b.length then                       -- `&a[ati..]`, `&b[bti..]` (:218-219)
+      let len := min (a.length - ati) (b.length - bti)                      -- (:221)
+      if (a.drop ati).take len != (b.drop bti).take len then .ok false      -- (:223-228)
       else
-        let ta := a.drop ati
-        let tb := b.drop bti
-        let len := min (a.length - ati) (b.length - bti)                    -- (:207)
-        if !(isCharBoundary ta len && isCharBoundary tb len) then .panic    -- `&at[..len]`, `&bt[..len]` (:209-210)
-        else if ta.take len != tb.take len then .ok false                   -- (:212)
+        if _h1 : ati + len = a.length then                                  -- (:233-241)
+          if _h2 : bti + len = b.length then eqLoop as 0 bs 0
+          else eqLoop as 0 (.text b :: bs) (bti + len)
         else
-          if _h1 : ati + len = a.length then
-            if _h2 : bti + len = b.length then eqLoopV0 as 0 bs 0
-            else eqLoopV0 as 0 (.text b :: bs) (bti + len)
-          else
-            if _h2 : bti + len = b.length then eqLoopV0 (.text a :: as) (ati + len) bs 0
-            else eqLoopV0 (.text a :: as) (ati + len) (.text b :: bs) (bti + len)
+          if _h2 : bti + len = b.length then eqLoop (.text a :: as) (ati + len) bs 0
+          else eqLoop (.text a :: as) (ati + len) (.text b :: bs) (bti + len)
     else .panic
+  | .text a :: as, .hole lb fb :: bs =>
+    if a.isEmpty then eqLoop as ati (.hole lb fb :: bs) bti                 -- (:202-206)
+    else .ok false                                                          -- (:255)
+  | .hole la fa :: as, .text b :: bs =>
+    if b.isEmpty then eqLoop (.hole la fa :: as) ati bs bti                 -- (:207-211)
+    else .ok false                                                          -- (:255)
   | .hole la _ :: as, .hole lb _ :: bs =>
-    if la != lb then .ok false else eqLoopV0 as ati bs bti                    -- (:231-240) labels only
-  | _ :: _, _ :: _ => .ok false                                            -- (:241)
+    if la != lb then .ok false else eqLoop as ati bs bti                    -- (:245-254) labels only, formatter ignored
 termination_by as.length + bs.length
 decreasing_by
   all_goals simp only [List.length_cons]
   all_goals omega
 
-/-- `PartialEq::eq` on the unchanged tree. -/
-def eqV0 (a b : List Part) : Res :=
+/-- `PartialEq::eq` (:181). -/
+def eq (a b : List Part) : Res :=
   match asLiteral a, asLiteral b with
-  | some x, some y => .ok (x == y)                                          -- (:183-185)
-  | _, _ => eqLoopV0 a 0 b 0
+  | some x, some y => .ok (x == y)                                          -- (:183-185) both single text parts
+  | _, _ => eqLoop a 0 b 0
+
+/-! ### What equality means -/
+
+/-- A template read as one stream: the bytes of its text and its holes, in order. -/
+inductive Atom where
+  | byte (b : UInt8)
+  | hole (label : List UInt8)
+  deriving Repr, DecidableEq
+
+def atoms : List Part → List Atom
+  | [] => []
+  | .text t :: ps => t.map Atom.byte ++ atoms ps
+  | .hole l _ :: ps => Atom.hole l :: atoms ps
+
+/-- A normalised template: non-empty text runs separated by holes (labels only). -/
+inductive Seg where
+  | text (t : List UInt8)
+  | hole (label : List UInt8)
+  deriving Repr, DecidableEq
+
+/-- Put text in front of a normalised sequence: merge with a leading text run, drop if empty. -/
+def consText (t : List UInt8) : List Seg → List Seg
+  | .text u :: r => .text (t ++ u) :: r
+  | r => if t = [] then r else .text t :: r
+
+/-- Drop empty text parts, merge adjacent text parts, forget formatters. -/
+def norm : List Part → List Seg
+  | [] => []
+  | .text t :: ps => consText t (norm ps)
+  | .hole l _ :: ps => .hole l :: norm ps
 
 end EmitModel.Template
